@@ -310,7 +310,7 @@ def o_converter_domain(ctx, repo):
             if ob.ok:
                 rule.ok(f.loc(ob.node), '%s: argument language inside %s' % (norm(ob.node)[:40], ob.domain_name))
             else:
-                key0 = 'converter|%s|%s|%s' % (fname, norm(ob.node)[:40], ob.domain_name)
+                key0 = 'converter|%s|%s|%s' % (fname, A.anon_text(ob.node, f.node, 40), ob.domain_name)
                 if ob.kind == 'conversion':
                     key0, ob.witness = beyond_known(ctx, L, rule.id, key0, RL.difference(ob.lang, L.domains[ob.domain_name]))
                 rule.fail(key0, f.module.rel, ob.node.lineno, f.qualname,
@@ -321,7 +321,7 @@ def o_converter_domain(ctx, repo):
                              'IndexError' if ob.kind == 'index' else 'ValueError'), inp=ob.witness)
         if interp.unknown_ops:
             e, why = interp.unknown_ops[0]
-            rule.fail('converter|%s|unmodelled|%s' % (fname, norm(e)[:40]), f.module.rel, e.lineno, f.qualname, norm(e)[:60],
+            rule.fail('converter|%s|unmodelled|%s' % (fname, A.anon_text(e, f.node, 40)), f.module.rel, e.lineno, f.qualname, norm(e)[:60],
                       'the converter applies a string operation the language analysis cannot follow (%s): nothing can be proved '
                       'about what reaches int()/float()' % why)
         if not interp.obligations:
@@ -333,7 +333,7 @@ def o_converter_domain(ctx, repo):
     if dec.is_finite():
         rule.ok(f.loc(), 'decimal int language is bounded')
     else:
-        rule.fail('converter|construct_yaml_int|int(value)|length', f.module.rel, f.node.lineno, f.qualname, 'int(value)',
+        rule.fail('converter|construct_yaml_int|int(_)|length', f.module.rel, f.node.lineno, f.qualname, 'int(value)',
                   'the decimal !!int language has no length bound, but CPython\'s int() refuses decimal strings longer than 4300 '
                   'digits with ValueError', inp='1' * 20 + '...(4301 digits)')
     return rule
